@@ -3,7 +3,7 @@
    theorems of Props/C11.v speak about. *)
 From Coq Require Import NArith ZArith List.
 From BU Require Import Base.Exn Base.Bytes Gen.Consts Gen.CodecConsts.
-From BU Require Model.Base58 Model.Base58Xmr Model.ConvertBits Model.Base32 Model.SS58 Model.Scale.
+From BU Require Model.Base58 Model.Base58Xmr Model.ConvertBits Model.Base32 Model.SS58 Model.Scale Model.Cbor.
 Import ListNotations.
 Open Scope N_scope.
 
@@ -46,3 +46,7 @@ Definition scale_uint_encode (kind : nat) (v : Z) : res (list N) :=
   | Some w => Scale.uint_encode w v
   | None => Err (Foreign 0)
   end.
+
+(* ---- CborIndefiniteLenArrayEncoder / Decoder ---- *)
+Definition cbor_encode := Cbor.encode cbor_indef_len_array_start cbor_indef_len_array_end.
+Definition cbor_decode := Cbor.decode cbor_indef_len_array_start cbor_indef_len_array_end cbor_uint_ids_to_len.
